@@ -171,11 +171,14 @@ class Network(Cached):
         self.silence_level: int = silence_level
         """higher -> less progress info"""
 
-        self._mut_A: int = 0
+        # keep counting when __init__ is re-run on an existing instance
+        # (subclasses do so to regenerate the network), otherwise the counters
+        # would return to their previous values and stale cache entries match
+        self._mut_A: int = getattr(self, "_mut_A", 0)
         """mutation count tracking `self.adjcency`"""
-        self._mut_nw: int = 0
+        self._mut_nw: int = getattr(self, "_mut_nw", 0)
         """mutation count tracking `self.node_weights`"""
-        self._mut_la: int = 0
+        self._mut_la: int = getattr(self, "_mut_la", -1) + 1
         """mutation count tracking `self.graph.es`"""
 
         self.N: int = 0
